@@ -226,14 +226,30 @@ def run(repo: Repo, chk: Check, thorough: bool = False) -> None:
             exact.append(a)
         elif any('qnmatch' in norm(t) for t in conds):
             patt.append(a)
-    if not exact or not patt:
+    if not exact:
+        # exact rules collected into a mapping {pattern text: level}: with duplicates the LAST pair inserted stays, so the rules have to be
+        # inserted in the order they were given (forward) for the last given rule to win
+        maps = [n for n in pc.walk() if isinstance(n, ast.DictComp) and 'options.privacy' in norm(n.generators[0].iter)] + \
+               [c for c in calls_in(pc) if call_name(c) == 'dict' and c.args and 'options.privacy' in norm(c.args[0])]
+        if maps:
+            m0 = maps[0]
+            it = m0.generators[0].iter if isinstance(m0, ast.DictComp) else m0.args[0]
+            rev = isinstance(it, ast.Call) and call_name(it) == 'reversed'
+            chk.ob('R13.2', 'model.System.privacyClass :: the last given exact rule wins', not rev,
+                   'mapping filled in the order the rules were given: the last one stays' if not rev else
+                   f'`{norm(m0)[:70]}`: a mapping keeps the pair inserted LAST, and the rules are inserted in reverse: of two exact rules for the same name the '
+                   'one given first wins', repo.loc(pc.mod, m0))
+    if (not exact and not any(o.rule == 'R13.2' and 'exact rule wins' in o.key for o in chk.obligations)) or not patt:
         raise AnalysisError('System.privacyClass: exact / pattern assignments not recognised')
     flags = {t.id for a in exact for s in a._parent.body if isinstance(s, ast.Assign) and isinstance(s.value, ast.Constant) and s.value.value is True  # type: ignore[attr-defined]
              for t in s.targets if isinstance(t, ast.Name)}
     for a in patt:
         tests = cfg.dominating_tests(a)
         ok = any((isinstance(t, ast.UnaryOp) and isinstance(t.op, ast.Not) and isinstance(t.operand, ast.Name) and t.operand.id in flags and pol) or
-                 (isinstance(t, ast.Name) and t.id in flags and not pol) for t, pol in tests)
+                 (isinstance(t, ast.Name) and t.id in flags and not pol) or
+                 # mapping form: `if name in exact_rules: ... else: <patterns>`
+                 (isinstance(t, ast.Compare) and len(t.ops) == 1 and isinstance(t.ops[0], ast.In) and not pol and (norm(t.left) in fnv or 'fullName' in norm(t.left)))
+                 for t, pol in tests)
         chk.ob('R13.2', 'model.System.privacyClass :: pattern rules apply only when no exact rule matched', ok,
                f'dominated by `not {sorted(flags)[0] if flags else "?"}`' if ok else
                'a pattern rule can override a rule whose pattern equals the qualified name', repo.loc(pc.mod, a))
@@ -253,6 +269,23 @@ def run(repo: Repo, chk: Check, thorough: bool = False) -> None:
             src = norm(loop.iter)
             chk.ob('R13.2', f'model.System.privacyClass :: {kind} scan covers all --privacy rules', 'options.privacy' in src and '[' not in src,
                    src, repo.loc(pc.mod, loop))
+    for a in patt:
+        loop = next((p for p in parents(a) if isinstance(p, ast.For)), None)
+        if loop is None or not isinstance(loop.target, ast.Tuple):
+            continue
+        ifn = next((p for p in parents(a) if isinstance(p, ast.If) and 'qnmatch' in norm(p.test)), None)
+        only_match = ifn is not None and isinstance(ifn.test, ast.Call) and call_name(ifn.test) == 'qnmatch'
+        chk.ob('R13.2', 'model.System.privacyClass :: a pattern rule applies exactly when it matches the name', bool(only_match),
+               f'if {norm(ifn.test)[:60]}' if only_match else
+               f'`{norm(ifn.test)[:90] if ifn is not None else "?"}` adds a condition to the match: a later rule that matches but restates the current level is skipped, '
+               'so an earlier matching rule decides ("the rule given last wins" fails)', repo.loc(pc.mod, ifn if ifn is not None else loop))
+        mv_ = loop.target.elts[1].id if len(loop.target.elts) == 2 and isinstance(loop.target.elts[1], ast.Name) else None
+        skips = [x for st in loop.body for x in ast.walk(st) if isinstance(x, ast.If) and x is not ifn and mv_ is not None and
+                 any(isinstance(y, ast.Name) and y.id == mv_ for y in ast.walk(x.test)) and any(isinstance(z, (ast.Continue, ast.Break)) for z in x.body)]
+        chk.ob('R13.2', 'model.System.privacyClass :: every rule goes through the matcher', not skips,
+               'no rule is filtered out by its text before qnmatch' if not skips else
+               f'`if {norm(skips[0].test)[:70]}: continue` decides from the text of the rule whether it is a pattern: rules whose only wildcard is a `[seq]` set '
+               'are never matched', repo.loc(pc.mod, skips[0] if skips else loop))
     # default
     dflt = [n for n in pc.walk() if isinstance(n, ast.If) and "startswith('_')" in norm(n.test)]
     ok = bool(dflt) and "startswith('__')" in norm(dflt[0].test) and "endswith('__')" in norm(dflt[0].test) and 'not' in norm(dflt[0].test) and \
